@@ -159,24 +159,25 @@ End Pipeline.
 
 (* ---- (2) strings at a str-typed position ----------------------------------------------------------------- *)
 Section Pinned.
+Variable fx : fixes.
 Variable yl : str -> lres.
 
-Lemma check_str_str s : check_type yl TStr (VStr s) = AOk (VStr s).
+Lemma check_str_str s : check_type_g fx yl TStr (VStr s) = AOk (VStr s).
 Proof.
-  unfold check_type, check_type_g, parse_value.
+  unfold check_type_g, parse_value.
   destruct (strip s) eqn:Es.
   - simpl. reflexivity.
-  - destruct (load_value as_is yl false s) as [x| |] eqn:El.
+  - destruct (load_value fx yl false s) as [x| |] eqn:El.
     + destruct x; simpl; reflexivity.
     + simpl. reflexivity.
     + simpl. reflexivity.
 Qed.
 
 Theorem str_position_all_channels s :
-  via_argv (chk yl) TStr s = AOk (VStr s) /\
-  via_env (chk yl) TStr s = AOk (VStr s) /\
-  via_object (chk yl) TStr (VStr s) = AOk (VStr s) /\
-  via_cfgenv (chk yl) TStr (VStr s) = AOk (VStr s).
+  via_argv (chk fx yl) TStr s = AOk (VStr s) /\
+  via_env (chk fx yl) TStr s = AOk (VStr s) /\
+  via_object (chk fx yl) TStr (VStr s) = AOk (VStr s) /\
+  via_cfgenv (chk fx yl) TStr (VStr s) = AOk (VStr s).
 Proof.
   unfold via_argv, via_env, via_object, via_cfgenv, chk. simpl.
   rewrite !check_str_str. simpl. rewrite !check_str_str. simpl. rewrite !check_str_str. auto.
@@ -186,7 +187,7 @@ Qed.
 Definition leaf_ty (k : leaf) : ty :=
   match k with LfStr => TStr | LfInt => TInt | LfFloat => TFloat | LfBool => TBool | LfNone => TNone end.
 
-Lemma adapt_leaf_ty ser o k v : adapt_g as_is yl ser o (leaf_ty k) v = adapt_leaf as_is yl k v.
+Lemma adapt_leaf_ty ser o k v : adapt_g fx yl ser o (leaf_ty k) v = adapt_leaf fx yl k v.
 Proof. destruct k; reflexivity. Qed.
 
 Lemma valid_string_leaf k v : k <> LfStr -> is_valid_string (leaf_ty k) v = false.
@@ -196,58 +197,58 @@ Proof. destruct k; simpl; try congruence; intros _; apply andb_false_r. Qed.
    it as x (null), and the loader used by the scalar types reads it as x *)
 Definition denotes (s : str) (x : val) : Prop :=
   is_str x = false /\
-  json_or_yaml_load as_is yl s = LVal x /\
-  (parse_value as_is yl false (VStr s) = LVal (VStr s) \/ parse_value as_is yl false (VStr s) = LVal x).
+  json_or_yaml_load fx yl s = LVal x /\
+  (parse_value fx yl false (VStr s) = LVal (VStr s) \/ parse_value fx yl false (VStr s) = LVal x).
 
 Lemma adapt_leaf_text k s x :
-  k <> LfStr -> is_str x = false -> json_or_yaml_load as_is yl s = LVal x ->
-  adapt_leaf as_is yl k (VStr s) = adapt_leaf as_is yl k x.
+  k <> LfStr -> is_str x = false -> json_or_yaml_load fx yl s = LVal x ->
+  adapt_leaf fx yl k (VStr s) = adapt_leaf fx yl k x.
 Proof.
   intros Hk Hx Hl. unfold adapt_leaf. destruct k; try congruence; rewrite Hl; destruct x; try discriminate; reflexivity.
 Qed.
 
-Lemma adapt_leaf_err k v e : adapt_leaf as_is yl k v = AErr e -> e = ErrValue.
+Lemma adapt_leaf_err k v e : adapt_leaf fx yl k v = AErr e -> e = ErrValue.
 Proof.
   unfold adapt_leaf.
   destruct (match v, k with
             | VStr _, LfStr => AOk v
-            | VStr s, _ => match json_or_yaml_load as_is yl s with
+            | VStr s, _ => match json_or_yaml_load fx yl s with
                            | LVal x => AOk x | LYamlErr => AOk v | LValErr => AErr ErrValue end
             | _, _ => AOk v end) as [v1|e1] eqn:E.
   - destruct (isinstance_leaf k _); [discriminate|]. congruence.
   - intro H. inversion H; subst. destruct v; try discriminate; destruct k; try discriminate;
-      destruct (json_or_yaml_load as_is yl s); try discriminate; congruence.
+      destruct (json_or_yaml_load fx yl s); try discriminate; congruence.
 Qed.
 
 Lemma check_leaf_text k s x :
-  k <> LfStr -> denotes s x -> check_type yl (leaf_ty k) (VStr s) = check_type yl (leaf_ty k) x.
+  k <> LfStr -> denotes s x -> check_type_g fx yl (leaf_ty k) (VStr s) = check_type_g fx yl (leaf_ty k) x.
 Proof.
   intros Hk (Hx & Hl & Hp).
-  assert (Hpx : parse_value as_is yl false x = LVal x) by (destruct x; try discriminate; reflexivity).
+  assert (Hpx : parse_value fx yl false x = LVal x) by (destruct x; try discriminate; reflexivity).
   assert (Ha := adapt_leaf_text k s x Hk Hx Hl).
-  unfold check_type, check_type_g. rewrite Hpx.
+  unfold check_type_g. rewrite Hpx.
   destruct Hp as [Hp|Hp]; rewrite Hp; cbv zeta; rewrite !adapt_leaf_ty, ?Ha;
-    destruct (adapt_leaf as_is yl k x) as [w|e] eqn:E; try reflexivity;
+    destruct (adapt_leaf fx yl k x) as [w|e] eqn:E; try reflexivity;
     pose proof (adapt_leaf_err _ _ _ E); subst e; rewrite ?valid_string_leaf by exact Hk;
     destruct x; try discriminate; reflexivity.
 Qed.
 
 (* what a scalar type accepts it leaves alone *)
 Lemma check_leaf_fix k v w :
-  k <> LfStr -> check_type yl (leaf_ty k) v = AOk w -> is_str v = false -> check_type yl (leaf_ty k) w = AOk w.
+  k <> LfStr -> check_type_g fx yl (leaf_ty k) v = AOk w -> is_str v = false -> check_type_g fx yl (leaf_ty k) w = AOk w.
 Proof.
   intros Hk H Hv.
-  assert (Hpv : parse_value as_is yl false v = LVal v) by (destruct v; try discriminate; reflexivity).
-  unfold check_type, check_type_g in H. rewrite Hpv in H. cbv zeta in H. rewrite !adapt_leaf_ty in H.
-  destruct (adapt_leaf as_is yl k v) as [w'|e] eqn:E.
+  assert (Hpv : parse_value fx yl false v = LVal v) by (destruct v; try discriminate; reflexivity).
+  unfold check_type_g in H. rewrite Hpv in H. cbv zeta in H. rewrite !adapt_leaf_ty in H.
+  destruct (adapt_leaf fx yl k v) as [w'|e] eqn:E.
   - inversion H; subst w'. clear H.
     assert (Hi : isinstance_leaf k w = true).
     { unfold adapt_leaf in E. destruct v; try discriminate; destruct k; try congruence; simpl in E;
         try discriminate; inversion E; subst; reflexivity. }
     assert (Hw : is_str w = false) by (destruct k; try congruence; destruct w; try discriminate; reflexivity).
-    assert (Hpw : parse_value as_is yl false w = LVal w) by (destruct w; try discriminate; reflexivity).
-    unfold check_type, check_type_g. rewrite Hpw. cbv zeta. rewrite !adapt_leaf_ty.
-    assert (Ew : adapt_leaf as_is yl k w = AOk w).
+    assert (Hpw : parse_value fx yl false w = LVal w) by (destruct w; try discriminate; reflexivity).
+    unfold check_type_g. rewrite Hpw. cbv zeta. rewrite !adapt_leaf_ty.
+    assert (Ew : adapt_leaf fx yl k w = AOk w).
     { unfold adapt_leaf. destruct k; try congruence; destruct w; try discriminate; reflexivity. }
     rewrite Ew. reflexivity.
   - pose proof (adapt_leaf_err _ _ _ E); subst e. rewrite valid_string_leaf in H by exact Hk.
@@ -255,13 +256,13 @@ Proof.
 Qed.
 
 Theorem leaf_guard k s x :
-  k <> LfStr -> denotes s x -> x <> VNone \/ k = LfNone -> guard (chk yl) (leaf_ty k) s x = true.
+  k <> LfStr -> denotes s x -> x <> VNone \/ k = LfNone -> guard (chk fx yl) (leaf_ty k) s x = true.
 Proof.
   intros Hk Hd Hn. pose proof Hd as (Hx & _ & _).
   unfold guard, g_reads, g_fixpt, g_none, chk.
   rewrite (check_leaf_text k s x Hk Hd), ares_eqb_refl. simpl.
   apply andb_true_iff. split.
-  - destruct (check_type yl (leaf_ty k) x) as [w|e] eqn:E; [|reflexivity].
+  - destruct (check_type_g fx yl (leaf_ty k) x) as [w|e] eqn:E; [|reflexivity].
     rewrite (check_leaf_fix k x w Hk E Hx). apply ares_eqb_refl.
   - destruct Hn as [Hn|Hn].
     + destruct x; try congruence; reflexivity.
